@@ -346,7 +346,54 @@ def twin_items(rng):
         out.append(it)
     return out
 
+def alias_bytes(rng):
+    """Encodings whose operands alias each other or an implicit operand (pop esp, cmpxchg with the accumulator as
+    operand, xadd / xchg of a register with itself, push/pop through the stack pointer ...): the lifted assignment
+    list then names one destination twice, or reads what it writes, and only the commit order decides."""
+    r = rng.randrange(8)
+    q = rng.choice([r, r, 0, 4, rng.randrange(8)])
+    mrr = 0xC0 | (q << 3) | r
+    k = rng.randrange(12)
+    if k == 0:
+        b = [0x58 + rng.choice([4, 4, r])]                     # pop r (esp)
+    elif k == 1:
+        b = [0x8f, 0xC0 | rng.choice([4, 4, r])]               # pop r/m32, register form
+    elif k == 2:
+        b = [0x50 + rng.choice([4, 4, r])]                     # push r (esp)
+    elif k == 3:
+        b = [0x0f, rng.choice([0xb1, 0xb1, 0xb0]), 0xC0 | (q << 3) | rng.choice([0, 0, r])]     # cmpxchg (accumulator as operand)
+    elif k == 4:
+        b = [0x0f, rng.choice([0xc1, 0xc0]), mrr]              # xadd
+    elif k == 5:
+        b = [rng.choice([0x87, 0x86]), mrr]                    # xchg
+    elif k == 6:
+        b = [0x8f, 0x04, 0x24] if rng.random() < 0.5 else [0x8f, 0x44, 0x24, 0x04]       # pop [esp], pop [esp+4]
+    elif k == 7:
+        b = [0xff, 0x34, 0x24] if rng.random() < 0.5 else [0xff, 0xf4]                   # push [esp], push esp
+    elif k == 8:
+        b = [rng.choice([0xc9, 0x61, 0x60, 0x9d, 0x9c, 0x99, 0x98])]                      # leave popa pusha popf pushf cdq cwde
+    elif k == 9:
+        b = [0xf7, rng.choice([0xe0, 0xe8, 0xf0, 0xf8]) | rng.choice([0, 2, r])]         # mul/imul/div/idiv by eax / edx
+    elif k == 10:
+        b = [0x0f, 0xaf, mrr] if rng.random() < 0.5 else [0x8d, 0x04 | (r << 3), rng.choice([0x00, 0x24, 0x09, 0x40 | r])]   # imul r,r / lea r,[sib]
+    else:
+        b = [rng.choice([0xa4, 0xa5, 0xa6, 0xa7, 0xaa, 0xab, 0xac, 0xad, 0xae, 0xaf, 0x91 + rng.randrange(7), 0xd7])]
+    if rng.random() < 0.15:
+        b = [0x66] + b
+    return bytes(b).hex()
+
 def workload(seed, n):
+    items = workload0(seed, n)
+    # second pass (keyed by seed and position, the main stream of choices is untouched): some lift items take an
+    # encoding with aliasing operands instead
+    for idx, it in enumerate(items):
+        if it['kind'] == 'lift':
+            r2 = random.Random('%d/%d/alias' % (seed, idx))
+            if r2.random() < 0.25:
+                it['hex'] = alias_bytes(r2)
+    return items
+
+def workload0(seed, n):
     rng = random.Random(seed)
     items = []
     for i in range(n):
